@@ -83,4 +83,20 @@ def mtime_secs_obligation(ctx, prover, pid):
     ex.exit_guards.append(st.guard)
     goals = {"whole-seconds-since-epoch": z3.Implies(z3.And(ok, s >= 0), r.t == s),
              "fallback-0-before-epoch-or-unreadable": z3.Implies(z3.Or(z3.Not(ok), s < 0), r.t == 0)}
-    prover.prove(ex, goals, "%s/mtime_secs" % pid, "all modification times (secs i64, nanos < 1e9) and unreadable metadata", ["mtime_secs"], None)
+    R = prover.R
+
+    def witness(name, model, neg):
+        sv = model_int(model, s)
+        if not model_bool(model, ok) or sv < 0:
+            return {"confirmed": False, "detail": "model needs unreadable / pre-epoch metadata: not replayed on a real file"}
+        case = {"fn": "set_local_mtime_roundtrip", "secs": sv, "raw_ns": model_int(model, ns)}
+        res_n = native.run_both(case)
+        bad = {p: r for p, r in res_n.items() if r.get("mtime_after") != sv}
+        if bad:
+            case["expected"] = sv
+            case["observed"] = res_n
+            return {"confirmed": True, "replay_path": R.save_replay("%s/mtime_secs" % pid, case), "key": "%s/mtime_secs" % pid,
+                    "detail": "a file with mtime %d s is read back as %s (expected %d)" % (sv, json.dumps(bad)[:160], sv)}
+        return {"confirmed": False, "detail": "native read-back of mtime %d agrees (file system may not store it)" % sv}
+
+    prover.prove(ex, goals, "%s/mtime_secs" % pid, "all modification times (secs i64, nanos < 1e9) and unreadable metadata", ["mtime_secs"], witness)
